@@ -47,6 +47,10 @@ type ScanChunk struct {
 	Heartbeat      bool // send nothing, more_results_in_region = true
 	EndRegionLater bool // do not announce the end of the region in the response that carries its last row
 	MoreResultsFalse bool // if the scan is complete after this region's last row, say more_results=false
+	// MarkLastPartial flags the last complete row of this response as partial
+	// although nothing of it is left (HBase does that when a size limit is hit
+	// exactly at the end of a row: "may have more cells in row").
+	MarkLastPartial bool
 }
 
 // DefaultScanPolicy draws a chunking at random.
@@ -76,6 +80,7 @@ func DefaultScanPolicy(x *ScanCtx) ScanChunk {
 	}
 	ch.EndRegionLater = x.Rand(3) == 0
 	ch.MoreResultsFalse = x.Rand(2) == 0
+	ch.MarkLastPartial = x.AllowPartials && ch.TrailingCells == 0 && x.Rand(5) == 0
 	return ch
 }
 
@@ -271,6 +276,9 @@ func (c *Cluster) handleScan(req *Request) *Reply {
 			st.fragOff += n
 		}
 	}
+	if ch.MarkLastPartial && x.AllowPartials && len(results) > 0 && st.fragOff == 0 {
+		results[len(results)-1].partial = true
+	}
 	var cells []Cell
 	for _, r := range results {
 		if c.PBResults {
@@ -286,7 +294,13 @@ func (c *Cluster) handleScan(req *Request) *Reply {
 			cells = append(cells, r.cells...)
 		}
 	}
-	info := fmt.Sprintf("results=%d", len(results))
+	nPartial := 0
+	for _, r := range results {
+		if r.partial {
+			nPartial++
+		}
+	}
+	info := fmt.Sprintf("results=%d partials=%d", len(results), nPartial)
 	if len(st.rows) == 0 && !(ch.EndRegionLater && len(results) > 0) {
 		resp.MoreResultsInRegion = proto.Bool(false)
 		why := "exhausted-region"
@@ -296,6 +310,16 @@ func (c *Cluster) handleScan(req *Request) *Reply {
 		}
 		closeScanner(why)
 		info += " end-of-region"
+	}
+	if f := c.ForceNoMoreResults; f != nil && !st.closed && st.table != "hbase:meta" && st.fragOff == 0 {
+		c.mu.Unlock()
+		force := f(req)
+		c.mu.Lock()
+		if force {
+			resp.MoreResults = proto.Bool(false)
+			closeScanner("more-results-false")
+			info += " forced-no-more-results"
+		}
 	}
 	if s.GetCloseScanner() {
 		closeScanner("open-and-close")
@@ -358,5 +382,44 @@ func (c *Cluster) OpenScanners() []uint64 {
 		out = append(out, id)
 	}
 	sort.Slice(out, func(i, j int) bool { return out[i] < out[j] })
+	return out
+}
+
+// ScannerOpID returns the operation id of the scan an open scanner belongs to.
+func (c *Cluster) ScannerOpID(id uint64) string {
+	c.mu.Lock()
+	defer c.mu.Unlock()
+	if st := c.scanners[id]; st != nil {
+		return st.opID
+	}
+	return ""
+}
+
+// ScanOpID returns the operation id a scan request belongs to ("" if none).
+func (c *Cluster) ScanOpID(req *Request) string {
+	if req.Scan == nil {
+		return ""
+	}
+	if req.Scan.Scan != nil {
+		for _, a := range req.Scan.Scan.Attribute {
+			if a.GetName() == "opid" {
+				return string(a.Value)
+			}
+		}
+		return ""
+	}
+	return c.ScannerOpID(req.Scan.GetScannerId())
+}
+
+// OpenScannersFor returns the open scanners that belong to a scan operation.
+func (c *Cluster) OpenScannersFor(opid string) []uint64 {
+	c.mu.Lock()
+	defer c.mu.Unlock()
+	var out []uint64
+	for id, st := range c.scanners {
+		if st.opID == opid {
+			out = append(out, id)
+		}
+	}
 	return out
 }
